@@ -198,6 +198,10 @@ def decl_for(kind, idx, ty, e):
     c = render_c(e)
     if kind == "init":
         return f"{CNAME[ty]} v{idx} = {c};", lambda m: var_bytes(m, f"v{idx}")
+    if kind == "einit":
+        return f"enum EE{idx} {{ Z{idx} }}; enum EE{idx} v{idx} = {c};", lambda m: var_bytes(m, f"v{idx}")
+    if kind == "pinit":
+        return f"char *v{idx} = (char *){c};", lambda m: var_bytes(m, f"v{idx}")
     if kind == "case":
         return (f"int f{idx}({CNAME[ty]} x) {{ switch (x) {{ case {c}: return 1; default: return 0; }} }}",
                 lambda m: case_const(m, f"f{idx}"))
@@ -259,6 +263,12 @@ def gcc_eval(cases, workdir=None):
         c = render_c(e)
         if kind == "init":
             lines.append(f"static {CNAME[ty]} v{i} = {c};")
+            body.append(f'printf("%s ", TYPENAME({c})); dump(&v{i}, sizeof v{i}); printf("\\n");')
+        elif kind == "einit":
+            lines.append(f"enum EE{i} {{ Z{i} }}; static enum EE{i} v{i} = {c};")
+            body.append(f'printf("%s ", TYPENAME({c})); dump(&v{i}, sizeof v{i}); printf("\\n");')
+        elif kind == "pinit":
+            lines.append(f"static char *v{i} = (char *){c};")
             body.append(f'printf("%s ", TYPENAME({c})); dump(&v{i}, sizeof v{i}); printf("\\n");')
         elif kind == "case":
             # `ty` is the PROMOTED controlling type, case[3] the label value the specification predicts:
